@@ -3,7 +3,7 @@
 U64 = 2**64 - 1
 I64MIN, I64MAX = -(2**63), 2**63 - 1
 
-NAMES = ["", "a", "b", ".text", "é", "名前", "x\x00y", "a<b>,c", "main", "a"]
+NAMES = ["", "a", "b", ".text", "é", "名前", "x\x00y", "a<b>,c", "main", "a", "rate%", "%s", "%(n)s {0}"]
 ISA = ["Undefined", "ARM", "ARM64", "IA32", "PPC32", "PPC64", "MIPS32", "MIPS64", "X64", "ValidButUnsupported"]
 FILE_FORMAT = ["Undefined", "COFF", "ELF", "IdaProDb32", "IdaProDb64", "MACHO", "PE", "RAW", "XCOFF"]
 BYTE_ORDER = ["Undefined", "Big", "Little"]
